@@ -163,3 +163,14 @@ def break_tie(tied: 'abs:Candidate', reason: 'str|none' = None) -> 'Candidate':
     ensures(implies(length(tied) > 1, forall(tied, lambda c: result.tieOrder <= c.tieOrder)),
             name='resolved by the declared tie-break order')
     modifies_ghost('nlog', 'lasttag', 'lastmsg')
+
+
+@contract('droop.rules.scotland.Rule.count.<locals>.breakTie', props=['C07'], free={'C': 'Candidates', 'E': 'Election'},
+          trusted='searches the saved copies of earlier rounds (E.rounds, copy.copy of candidates): outside the verified '
+                  'subset; its tie procedure (49(2)(3), 51(2)) is checked by the bounded stand-in')
+def break_tie_scotland(tied: 'abs:Candidate', reason: 'str|none' = None) -> 'Candidate':
+    requires(length(tied) >= 1)
+    ensures(mem(tied, result))
+    ensures(implies(length(tied) == 1, ghost('nlog') == old(ghost('nlog'))))
+    ensures(implies(length(tied) > 1, and_(ghost('nlog') == old(ghost('nlog')) + 1, ghost('lasttag') == 'tie')))
+    modifies_ghost('nlog', 'lasttag', 'lastmsg')
